@@ -45,21 +45,34 @@
                               parsing yields corrS on the three proved no-base classes of non-special schemes
                               of C01; with it the statement for these start URLs x seven setters x all histories
      C07_related_corrS, C07_spec_parse_invariants, C07_parse_model_extra, C07_parse_all_corrS
-                              parsing yields corrS for EVERY scalar-value input outside Known_C01, special schemes
-                              included (the second clause of C07_statement with R := corrS): from C01_statement_all
-                              (`related` pairs) through a bridge related => corrS whose side conditions are parser
-                              invariants of the two sides; host functions: host_parse_ok
+                              parsing yields corrS for every scalar-value input outside Known_C01 whose scheme is not
+                              "file", special schemes included (the second clause of C07_statement with R := corrS): from
+                              C01_statement_all (`related` pairs) through a bridge related => corrS whose side conditions
+                              are parser invariants of the two sides; host functions: host_parse_ok.  (File inputs inside
+                              the recogniser k_file_ok are outside Known_C01 since its class 1 was narrowed; the bridge
+                              does not cover them: input_is_file input = false is an explicit hypothesis.)
      C07_seven_all, C07_statement_seven_all
-                              C07_statement restricted to seven setters for every URL parsed outside Known_C01
+                              C07_statement restricted to seven setters for every URL so parsed
      C07_href_equiv, C07_eight_setters_partial, C07_eight_histories, C07_statement_eight_all
                               href (= C01, outside classes 11-14) up to C01's Overflow arm (a new URL longer than
-                              u32::MAX bytes: the code keeps the old URL); eight setters, all histories
+                              u32::MAX bytes: the code keeps the old URL) and for values whose scheme is not "file";
+                              eight setters, all histories
      C07_host_standard_portless, C07_host_portless_equiv
                               host on values without a port part (no ':' outside brackets): the Standard's host
                               setter is its hostname setter there, and so is url::quirks::set_host outside classes
-                              2, 3, 4, 7 of Known_C07 - one assignment preserves corrS
-   The gap: the host setter on values with a port part, the pathname setter, hostname on file URLs (class 4 of
-   Known_C07 covers them all), href values whose URL exceeds u32::MAX bytes, and host_parse_ok in place of
+                              2, 3, 4, 7 of Known_C07
+     C07_host_standard_closed, C07_host_equiv
+                              the Standard's host setter in closed form (host state continuing into the port state with
+                              a state override: host changed, port unchanged on failure); host on EVERY value, with or
+                              without a port part, outside classes 2, 3, 4, 7: the Standard's on every corrS pair
+     C07_nine_setters_partial, C07_nine_histories, C07_nine_all, C07_statement_nine_all
+                              nine setters (the eight and host): one step, all histories, from every parsed start URL,
+                              and in the shape of C07_statement
+     C07_host_fns_real, C07_host_fns_special_empty_string
+                              the per-string host hypothesis for the REAL host functions under IdnaOK on (non-empty)
+                              scalar-value strings; on the empty string it does not follow from IdnaOK (witness)
+   The gap: the pathname setter, host / hostname on file URLs (class 4 of Known_C07 covers them all), inputs and href
+   values whose scheme is "file", href values whose URL exceeds u32::MAX bytes, and host_parse_ok in place of
    hosts_agree.
    It is covered by the fixed-seed differential run implementation <-> specification model of the
    harness (a test). *)
@@ -75,7 +88,8 @@ From RU Require Import Base.Prelude Base.Utf8 Model.AsciiSet Gen.Tables Model.Pe
   Proofs.C07_EqAuthParse Proofs.C07_EqAuthHost
   Proofs.C07_SpecHost Proofs.C07_EqHostname Proofs.C07_EqSeven
   Proofs.C02_AuthParts Proofs.C03_ReachParts Proofs.C01_EqRef Proofs.C07_EqRel Proofs.C07_SpecInv Proofs.C07_ParseExtra Proofs.C07_EqParseAll
-  Proofs.C07_SpecHost2 Proofs.C07_EqHostNoPort.
+  Proofs.C07_SpecHost2 Proofs.C07_EqHostNoPort Proofs.C07_SpecHostPort Proofs.C07_EqHostPort Proofs.C07_EqNine
+  Proofs.C06_Host Proofs.C09_Host Proofs.C16_RT6Model Proofs.C07_HostReal.
 
 (* ---------- the statement ---------- *)
 
@@ -1083,6 +1097,209 @@ Example C07_host_portless_inhabited :
     /\ known_c07 u QHost (str "x.y/z") = 0 /\ host_value_portless u (str "x.y/z") = true
     /\ option_map q_href (model_set true ok_hp ok_ho toy_hd QHost u (str "x.y/z")) = Some (str "a://:pw@x.y:8/p").
 Proof. eexists. split; [vm_compute; reflexivity|]. vm_compute. repeat split. Qed.
+
+(* ---------- host, on every value; nine setters ---------- *)
+
+(* the Standard's host setter in closed form, for a URL whose scheme is not "file": the scan of the host state
+   (hscan: buffer, stopped at a ':' outside brackets) decides - no ':': the hostname setter's outcome
+   (hostname_decide); a ':' (host_port_decide): empty buffer or host-parser failure = unchanged, otherwise the host is
+   set and the port state runs on the text behind the ':' (hrest) with a state override: its leading digits are the
+   new port (null if the scheme's default), no digit or a number above 65535 = failure with the host ALREADY changed
+   and the port kept *)
+Theorem C07_host_standard_closed : forall shp su v, list_eqb (su_scheme su) str_file = false ->
+  spec_set shp SetHost su v = SetTo (if has_opaque_path su then su else host_decide shp su (notnl v)).
+Proof. exact spec_host_closed. Qed.
+Check C07_host_standard_closed : forall shp su v, list_eqb (su_scheme su) str_file = false ->
+  spec_set shp SetHost su v
+  = SetTo (if has_opaque_path su then su
+           else let r := hscan (is_special su) false [] (notnl v) in
+                if snd r then host_port_decide shp su (fst r) (hrest (is_special su) false (notnl v))
+                else hostname_decide shp su r).
+Print Assumptions C07_host_standard_closed.
+
+(* host on EVERY value (with or without a port part), outside classes 2, 3, 4, 7 of Known_C07: url::quirks::set_host
+   is the Standard's host setter on every corrS-related pair - no panic, related again, same ten API strings.  With a
+   port part: Parser::parse_host leaves the ':' at the head of the remaining input, the text behind it goes to
+   parse_port in the setter context; an error (no digit, above 65535) or an empty rest = the host alone is replaced,
+   a success = host and port are replaced (set_host_internal .. (Some p)).  Class 2 (non-special URL, value led by
+   ':', F-C07-6) is exactly where the code sets an empty host and the Standard fails. *)
+Theorem C07_host_equiv : forall dbg hp ho hd shp shs, host_fns_ok hp ho hd shp shs ->
+  forall u su v, corrS dbg shs u su -> usv_list v -> known_c07 u QHost v = 0 ->
+  exists u' su', model_set dbg hp ho hd QHost u v = Some u' /\ spec_step shp QHost su v = Some su'
+    /\ corrS dbg shs u' su' /\ model_api dbg u' = Some (spec_api_list shs su').
+Proof. exact host_step_api. Qed.
+Check C07_host_equiv : forall dbg hp ho hd shp shs, host_fns_ok hp ho hd shp shs ->
+  forall u su v, corrS dbg shs u su -> usv_list v -> known_c07 u QHost v = 0 ->
+  exists u' su', model_set dbg hp ho hd QHost u v = Some u' /\ spec_step shp QHost su v = Some su'
+    /\ corrS dbg shs u' su' /\ model_api dbg u' = Some (spec_api_list shs su').
+Print Assumptions C07_host_equiv.
+
+(* the hypotheses can be met: "a://:pw@h:8/p" .host = "x.y:0081/z" (host and port replaced), = "x.y:99999" (port
+   above 65535: host replaced, port kept), = "x.y:" (host replaced, port kept), on "http://h:8/" = "x.y:80" (default
+   port: removed) *)
+Example C07_host_equiv_inhabited :
+  exists u, parse_url true ok_hp ok_ho toy_hd None None (str "a://:pw@h:8/p") = POk u
+    /\ known_c07 u QHost (str "x.y:0081/z") = 0 /\ host_value_portless u (str "x.y:0081/z") = false
+    /\ option_map q_href (model_set true ok_hp ok_ho toy_hd QHost u (str "x.y:0081/z")) = Some (str "a://:pw@x.y:81/p")
+    /\ option_map q_href (model_set true ok_hp ok_ho toy_hd QHost u (str "x.y:99999")) = Some (str "a://:pw@x.y:8/p")
+    /\ option_map q_href (model_set true ok_hp ok_ho toy_hd QHost u (str "x.y:")) = Some (str "a://:pw@x.y:8/p")
+    /\ exists w, parse_url true ok_hp ok_ho toy_hd None None (str "http://h:8/") = POk w
+         /\ known_c07 w QHost (str "x.y:80") = 0
+         /\ option_map q_href (model_set true ok_hp ok_ho toy_hd QHost w (str "x.y:80")) = Some (str "http://x.y/").
+Proof.
+  eexists. split; [vm_compute; reflexivity|]. do 5 (split; [vm_compute; reflexivity|]).
+  eexists. split; [vm_compute; reflexivity|]. split; vm_compute; reflexivity.
+Qed.
+
+(* PARTIAL C07_statement: one assignment through any of NINE setters (the seven, href, host) preserves corrS ...
+   nine_ok s v: any value for the seven and for host; for href a value that fits u32 and whose scheme is not "file" *)
+Theorem C07_nine_setters_partial : forall dbg hp ho hd shp shs, host_parse_ok hp ho hd shp shs ->
+  forall u su s v, corrS dbg shs u su -> nine_ok shp shs s v -> usv_list v -> known_c07 u s v = 0 ->
+  exists u' su', model_set dbg hp ho hd s u v = Some u' /\ spec_step shp s su v = Some su' /\ corrS dbg shs u' su'.
+Proof. exact nine_step. Qed.
+Check C07_nine_setters_partial : forall dbg hp ho hd shp shs, host_parse_ok hp ho hd shp shs ->
+  forall u su s v, corrS dbg shs u su ->
+  (seven s = true \/ s = QHost \/ (s = QHref /\ href_fits shp shs v /\ input_is_file v = false)) -> usv_list v ->
+  known_c07 u s v = 0 ->
+  exists u' su', model_set dbg hp ho hd s u v = Some u' /\ spec_step shp s su v = Some su' /\ corrS dbg shs u' su'.
+Print Assumptions C07_nine_setters_partial.
+
+(* ... and so does every history of them: the ten API strings agree after every prefix *)
+Theorem C07_nine_histories : forall dbg hp ho hd shp shs, host_parse_ok hp ho hd shp shs ->
+  forall ops u su, corrS dbg shs u su -> nine_ops shp shs ops -> outside_known dbg hp ho hd u ops ->
+  forall n, exists u' su',
+    model_run dbg hp ho hd u (firstn n ops) = Some u'
+    /\ spec_run shp su (firstn n ops) = Some su'
+    /\ corrS dbg shs u' su'
+    /\ model_api dbg u' = Some (spec_api_list shs su').
+Proof. exact nine_histories. Qed.
+Check C07_nine_histories : forall dbg hp ho hd shp shs, host_parse_ok hp ho hd shp shs ->
+  forall ops u su, corrS dbg shs u su -> nine_ops shp shs ops -> outside_known dbg hp ho hd u ops ->
+  forall n, exists u' su',
+    model_run dbg hp ho hd u (firstn n ops) = Some u'
+    /\ spec_run shp su (firstn n ops) = Some su'
+    /\ corrS dbg shs u' su'
+    /\ model_api dbg u' = Some (spec_api_list shs su').
+Print Assumptions C07_nine_histories.
+
+(* parse (outside Known_C01, scheme not "file"), then any history of the nine, each step outside Known_C07: the ten
+   API strings agree at the start and after every prefix *)
+Theorem C07_nine_all : forall dbg hp ho hd shp shs, host_parse_ok hp ho hd shp shs ->
+  forall input u ops, usv_list input -> known_c01 None input = 0 -> input_is_file input = false ->
+  parse_url dbg hp ho hd None None input = POk u ->
+  nine_ops shp shs ops -> outside_known dbg hp ho hd u ops ->
+  exists su, spec_basic_url_parse shp input None = BDone su
+    /\ model_api dbg u = Some (spec_api_list shs su)
+    /\ forall n, exists u' su',
+         model_run dbg hp ho hd u (firstn n ops) = Some u'
+         /\ spec_run shp su (firstn n ops) = Some su'
+         /\ model_api dbg u' = Some (spec_api_list shs su').
+Proof. exact nine_from_parse_all. Qed.
+Check C07_nine_all : forall dbg hp ho hd shp shs, host_parse_ok hp ho hd shp shs ->
+  forall input u ops, usv_list input -> known_c01 None input = 0 -> input_is_file input = false ->
+  parse_url dbg hp ho hd None None input = POk u ->
+  nine_ops shp shs ops -> outside_known dbg hp ho hd u ops ->
+  exists su, spec_basic_url_parse shp input None = BDone su
+    /\ model_api dbg u = Some (spec_api_list shs su)
+    /\ forall n, exists u' su',
+         model_run dbg hp ho hd u (firstn n ops) = Some u'
+         /\ spec_run shp su (firstn n ops) = Some su'
+         /\ model_api dbg u' = Some (spec_api_list shs su').
+Print Assumptions C07_nine_all.
+
+(* in the shape of C07_statement: ONE abstraction relation (corrS), the parse clause, the one-step clause for nine of
+   the ten setters.  Against C07_statement: pathname missing (and host / hostname on file URLs: class 4 of Known_C07
+   covers them all); inputs and href values whose scheme is "file" (those inside k_file_ok are outside Known_C01);
+   href values whose URL exceeds u32::MAX bytes; host_parse_ok instead of hosts_agree; inputs and values that are
+   scalar-value strings. *)
+Theorem C07_statement_nine_all : forall dbg hp ho hd shp shs, host_parse_ok hp ho hd shp shs ->
+  exists R : url -> spec_url -> Prop,
+    (forall u su, R u su -> model_api dbg u = Some (spec_api_list shs su))
+    /\ (forall input u, usv_list input -> known_c01 None input = 0 -> input_is_file input = false ->
+          parse_url dbg hp ho hd None None input = POk u ->
+          exists su, spec_basic_url_parse shp input None = BDone su /\ R u su)
+    /\ (forall u su s v, R u su -> nine_ok shp shs s v -> usv_list v -> known_c07 u s v = 0 ->
+          exists u' su', model_set dbg hp ho hd s u v = Some u' /\ spec_step shp s su v = Some su' /\ R u' su').
+Proof. exact statement_nine_all. Qed.
+Check C07_statement_nine_all : forall dbg hp ho hd shp shs, host_parse_ok hp ho hd shp shs ->
+  exists R : url -> spec_url -> Prop,
+    (forall u su, R u su -> model_api dbg u = Some (spec_api_list shs su))
+    /\ (forall input u, usv_list input -> known_c01 None input = 0 -> input_is_file input = false ->
+          parse_url dbg hp ho hd None None input = POk u ->
+          exists su, spec_basic_url_parse shp input None = BDone su /\ R u su)
+    /\ (forall u su s v, R u su ->
+          (seven s = true \/ s = QHost \/ (s = QHref /\ href_fits shp shs v /\ input_is_file v = false)) ->
+          usv_list v -> known_c07 u s v = 0 ->
+          exists u' su', model_set dbg hp ho hd s u v = Some u' /\ spec_step shp s su v = Some su' /\ R u' su').
+Print Assumptions C07_statement_nine_all.
+
+(* the hypotheses can be met: on "a://h/p", href := " hTTps:\\u:p@H.x:0443/a/../b?q#f", host := "y.z:8080\w",
+   hostname := "q.r", host := "s.t:443" (the default port: removed) *)
+Example C07_nine_inhabited :
+  let ops := [(QHref, str " hTTps:\\u:p@H.x:0443/a/../b?q#f"); (QHost, str "y.z:8080\w"); (QHostname, str "q.r");
+              (QHost, str "s.t:443")] in
+  nine_ops ok_shp toy_shs ops
+  /\ exists u, parse_url true ok_hp ok_ho toy_hd None None (str "a://h/p") = POk u
+       /\ outside_known true ok_hp ok_ho toy_hd u ops
+       /\ option_map q_href (model_run true ok_hp ok_ho toy_hd u (firstn 2 ops)) = Some (str "https://u:p@y.z:8080/b?q#f")
+       /\ option_map q_href (model_run true ok_hp ok_ho toy_hd u ops) = Some (str "https://u:p@s.t/b?q#f").
+Proof.
+  cbv zeta. split.
+  - cbn [nine_ops]. split; [right; right; split; [reflexivity|]; split; [unfold href_fits; vm_compute; discriminate | vm_compute; reflexivity]|].
+    split; [repeat constructor; vm_compute; auto|]. split; [right; left; reflexivity|].
+    split; [repeat constructor; vm_compute; auto|]. split; [left; reflexivity|].
+    split; [repeat constructor; vm_compute; auto|]. split; [right; left; reflexivity|].
+    split; [repeat constructor; vm_compute; auto | exact I].
+  - eexists. split; [vm_compute; reflexivity|]. split; [vm_compute; repeat split|]. split; vm_compute; reflexivity.
+Qed.
+
+(* ---------- the host hypothesis for the real host functions ---------- *)
+
+(* host_fn_ok (the per-string content of host_fns_ok / host_parse_ok: same success, same text, host_disp_ok, empty host
+   <-> SEmpty <-> empty string) holds for the REAL host functions - Host::parse with a domain-to-ASCII oracle,
+   Host::parse_opaque, Display - against the Standard's host parser with the same oracle and the Standard's host
+   serializer under IdnaOK: for Host::parse_opaque on every scalar-value string, for Host::parse on every NON-EMPTY
+   scalar-value string.  GAP to a C07_statement relative to IdnaOK only: host_fns_ok quantifies over all strings; the
+   restriction to (non-empty) scalar-value strings - all the setters and the parser ever hand to the host functions - is
+   not yet carried through the equivalence proofs. *)
+Theorem C07_host_fns_real : forall idna, IdnaOK idna -> forall s, usv_list s ->
+  host_fn_ok_at host_parse_opaque host_display (spec_host_parser idna) spec_host_serializer true s
+  /\ (s <> [] -> host_fn_ok_at (host_parse idna) host_display (spec_host_parser idna) spec_host_serializer false s).
+Proof. intros idna OK s Hu. exact (conj (host_fn_real_opaque idna OK s Hu) (host_fn_real_special idna OK s Hu)). Qed.
+Check C07_host_fns_real : forall idna, IdnaOK idna -> forall s, usv_list s ->
+  match host_parse_opaque s, host_parsing (spec_host_parser idna) true s with
+  | Ok h, Some sh => host_display h = spec_host_serializer sh /\ host_disp_ok host_display h
+                     /\ (h = HDomain [] <-> sh = SEmpty) /\ (h = HDomain [] <-> s = [])
+  | Err _, None => True
+  | _, _ => False
+  end
+  /\ (s <> [] ->
+      match host_parse idna s, host_parsing (spec_host_parser idna) false s with
+      | Ok h, Some sh => host_display h = spec_host_serializer sh /\ host_disp_ok host_display h
+                         /\ (h = HDomain [] <-> sh = SEmpty) /\ (h = HDomain [] <-> s = [])
+      | Err _, None => True
+      | _, _ => False
+      end).
+Print Assumptions C07_host_fns_real.
+
+(* host_fn_ok is exactly this for every string *)
+Theorem C07_host_fn_ok_pointwise : forall hf hd shp shs o,
+  host_fn_ok hf hd shp shs o <-> forall s, host_fn_ok_at hf hd shp shs o s.
+Proof. exact host_fn_ok_pointwise. Qed.
+Print Assumptions C07_host_fn_ok_pointwise.
+
+(* the hypotheses can be met: the oracle idna_clean (C09), the string "x.y" *)
+Example C07_host_fns_real_inhabited : IdnaOK idna_clean /\ usv_list (str "x.y") /\ str "x.y" <> [].
+Proof. split; [exact idna_clean_ok|]. split; [repeat constructor; vm_compute; auto | discriminate]. Qed.
+
+(* the restriction to non-empty strings is needed for Host::parse: on the empty string the answer depends on what the
+   oracle says about the empty string, which IdnaOK does not fix - an oracle with idna "" = "a" makes Host::parse("")
+   succeed with the domain "a" (url::quirks never hands the empty string to Host::parse: a special URL with an empty
+   host text is refused before) *)
+Theorem C07_host_fns_special_empty_string : forall idna, idna [] = Some [97] ->
+  ~ host_fn_ok (host_parse idna) host_display (spec_host_parser idna) spec_host_serializer false.
+Proof. exact host_fn_ok_special_empty_string. Qed.
+Print Assumptions C07_host_fns_special_empty_string.
 
 (* ---------- clauses of the Standard's setters, for all records and values ---------- *)
 
